@@ -65,6 +65,7 @@ class Report:
         self.notes = []
         self._known_db = [f for f in load_findings().get("findings", []) if f.get("property") == pid]
         self._replay_n = 0
+        self.extension = False    # extension modules (beyond the listed properties) report under evidence/extensions/
 
     # ---- coverage bookkeeping ------------------------------------------------------------
     def add(self, key, n=1):
@@ -112,7 +113,7 @@ class Report:
                 json.dump({"property": self.pid, "signature": signature, "text": text, "witness": witness},
                           f, indent=1, default=repr)
         if self._replay_n <= 20:
-            print("VIOLATION property=%s replay=%s" % (self.pid, path))
+            print("%s property=%s replay=%s" % ("EXT-VIOLATION" if self.extension else "VIOLATION", self.pid, path))
             print("  %s" % text)
         self.violations.append((signature, text, path))
         return True
@@ -142,8 +143,9 @@ class Report:
             "wall_s": round(time.time() - self.t0, 2),
             "violations": len(self.violations),
         }
-        os.makedirs(os.path.join(VERIF, "evidence"), exist_ok=True)
-        path = os.path.join(VERIF, "evidence", "%s.json" % self.pid)
+        edir = os.path.join(VERIF, "evidence", "extensions") if self.extension else os.path.join(VERIF, "evidence")
+        os.makedirs(edir, exist_ok=True)
+        path = os.path.join(edir, "%s.json" % self.pid)
         tmp = path + ".tmp"
         with open(tmp, "w") as f:
             json.dump(ev, f, indent=1, default=repr)
